@@ -23,6 +23,9 @@ def what_fn(case, obs, verdict):
     if why == "client-sharing":
         return ("http clients of the guns the engine bound do not satisfy clients_ok: instances share a client although the shared client "
                 "is not enabled (or more pool clients than client-number), format %s" % (f[1] if len(f) > 1 else "?"))
+    if why == "redirect-followups":
+        return ("the gun's client followed the target's redirects although `redirect` is off, or did not follow each 301 answer once "
+                "although it is on (format %s)" % (f[1] if len(f) > 1 else "?"))
     if why == "connection-count":
         return ("connections seen by the target do not satisfy conn_ok (keep-alive + per-instance clients: <= instances; keep-alive off: "
                 "== requests), format %s" % (f[1] if len(f) > 1 else "?"))
@@ -38,6 +41,10 @@ def run(ctx):
               "while the configuration is decoded, 1% of the cases with a 1.3-1.6 s pause between the requests (const schedule, run concurrently), "
               "1-4 instances per pool, gun shared-client block absent / disabled with client-number -1..8 / enabled, target answering at once or only when all instances of the pool are in flight (rendezvous), plain or TLS target answering with a generated status and body size 0 B..1.2 MB, keep-alive on/off); `tr` cases: every field of TransportConfig / DialerConfig (reflection) read back from the built http.Transport / net.Dialer; files are delivered 1-3 times (passes), format jsonarr = jsonline entries as one JSON array, target answers after 0 or 15 ms; "
               "`hist` cases: scripted histories of request starts / ends (1-5 instances, random walks and in-step rounds, keep-alive on/off, shared-client block, max-idle-conns-per-host 0..3) on the real guns warmed up and bound as the engine does, compared exactly with the extracted transport model; "
+              "round 6: gun options under which Shoot touches the request / answer as a dimension of wire and hist cases (answlog all/warning/error, "
+              "httptrace dump / trace, auto-tag, a logger accepting debug messages, redirect: true with 301 answers pointing at a follow-up path "
+              "whose requests are counted, not compared); files delivered through the provider option `passes` (limit 0) instead of `limit` in a "
+              "quarter of the cases; raw entries with a Transfer-Encoding: chunked body; "
               "non-trivial: every tr and hist case; wire cases where the configuration defines headers and either some key "
               "(canonical form) is defined both by the configuration and by an entry/in-file header, or the file has more "
               "than one item; distinct = distinct case lines. Header comparison: map sorted by canonical key, value lists in "
@@ -47,7 +54,9 @@ def run(ctx):
               "Transfer-Encoding/Expect/Trailer/Pragma headers, nor invalid header names, nor an empty User-Agent "
               "(net/http drops it); jsonline entries have distinct canonical keys (Go map iteration order otherwise decides)"),
         key_fn=key_fn, what_fn=what_fn,
-        bridge_files=["Properties/C09_conns.v"],  # keep-alive / connection sentence (Model/HttpConns.v, Proofs/HttpConnsProofs.v)
+        # keep-alive / connection sentence (Model/HttpConns.v, Proofs/HttpConnsProofs.v); request body / answer under the gun
+        # options that make Shoot read them (Model/HttpShoot.v, Proofs/HttpShootProofs.v)
+        bridge_files=["Properties/C09_conns.v", "Properties/C09_shoot.v"],
         trusted=[
             "extraction: ExtrOcamlBasic only; OCaml driver ocaml/C09/main.ml + ocaml/common/conv.ml",
             "correspondence harness harness/cmd/hC09 (config decoder, http providers uri/uripost/http-json/raw, http gun, engine: all real; "
